@@ -1,8 +1,68 @@
 """Spec functions for the server side (dispatcher), from the statements of C01-C03, C12, C15."""
-from spec.prims import is_absent, member
+from spec.prims import (class_is, ev_callee, ev_kind, ev_outcome, ev_value, is_absent, is_json, member, same, tlen,
+                        uf, ufv)
+from spec.jsonrpc import id_ok
+
+from pjrpc.common.common import UNSET
+from pjrpc.common.exceptions import (InternalError, InvalidParamsError, JsonRpcError, MethodNotFoundError,
+                                     ServerError)
+from pjrpc.common.v20 import BatchRequest, BatchResponse, Request, Response
 
 
 def registered(dispatcher, name):
     """the method registered under exactly this name, or None"""
     m = member(dispatcher._registry._registry, name)
     return None if is_absent(m) else m
+
+
+def config_ok(d):
+    """A-classes: the dispatcher is configured with the library's own message classes"""
+    return (d._response_class is Response and d._request_class is Request
+            and d._batch_request is BatchRequest and d._batch_response is BatchResponse)
+
+
+def request_ok(req):
+    """what Request.from_json guarantees about an accepted request"""
+    return (isinstance(req._method, str) and id_ok(req._id)
+            and (req._params is None or (is_json(req._params) and isinstance(req._params, (list, dict)))))
+
+
+def ran_once(n0, m):
+    """the events since event number n0 are exactly one call of the callable bound to m (and, when that
+    call returned a coroutine, the awaiting of that coroutine)"""
+    n = tlen() - n0
+    if n < 1 or n > 2:
+        return False
+    if not (ev_kind(n0) == 'call' and same(ufv('bound_of', ev_callee(n0)), m)):
+        return False
+    if n == 2:
+        return ev_outcome(n0) == 'ret' and ev_kind(n0 + 1) == 'await' and same(ev_callee(n0 + 1), ev_value(n0))
+    return True
+
+
+def method_returned(d, name, params, n0, value):
+    """C02/C03: a normal outcome means: the name is registered, the params bind, the method ran exactly
+    once and `value` is what it returned (unchanged)"""
+    m = registered(d, name)
+    return (m is not None and uf('binds', m, params) and ran_once(n0, m)
+            and ev_outcome(tlen() - 1) == 'ret' and same(ev_value(tlen() - 1), value))
+
+
+def method_failed(d, name, params, n0, exc):
+    """C03: the protocol error produced for each failure class"""
+    m = registered(d, name)
+    if m is None:
+        # unknown name: -32601, nothing executed (C15)
+        return class_is(exc, MethodNotFoundError) and tlen() == n0
+    if not uf('binds', m, params):
+        # parameters do not bind / validate: -32602 without running the method
+        return class_is(exc, InvalidParamsError) and tlen() == n0
+    if not (ran_once(n0, m) and ev_outcome(tlen() - 1) == 'raise'):
+        return False
+    x = ev_value(tlen() - 1)
+    if isinstance(x, JsonRpcError):
+        # a protocol error raised by the method reaches the caller as the very same object
+        return same(exc, x)
+    # any other exception: the constant ServerError() - nothing of x can leak into a constant
+    return (class_is(exc, ServerError) and same(exc.code, -32000) and same(exc.message, 'Server error')
+            and exc.data is UNSET)
